@@ -107,6 +107,15 @@ CHECKS = {
             "Trusted: the list of preconditions read from statement + docstrings (dense-dense broadcasting and value-domain "
             "conditions are out of scope); two upstream-test-pinned acceptances are known findings.",
             TECH_PRODUCT, "DESIGN.md §6 C19"),
+    "C20": ("tenones/tenzeros/tenrand/from_function over every shape of the scope and all shape forms; tendiag/sptendiag for element "
+            "vectors shorter/longer than every requested shape; teneye via its identity action on unit vectors; from_aggregator over "
+            "EVERY multiset of <= 3-4 subscripts in every listed order x value words x 7 reducers; sptenrand/from_function for every "
+            "requested count 0..cells (and the matching densities) under seeds 0-7 AND under a scripted random source whose draw "
+            "words are enumerated completely for the first attempt and deviation-bounded (<= 2 deviations from 20 default policies) beyond.",
+            "Trusted: ScriptedRandom inside mc/props/C20.py owns every numpy.random entry point used (others raise); replay "
+            "divergence is a hard error; scope <= 9 (16) cells for the random generators.",
+            "bounded-exhaustive enumeration (product explorer) + deviation-bounded environment exploration of scripted random draws",
+            "DESIGN.md §6 C20"),
 }
 PENDING = {f"C{i:02d}": "check not built yet in this phase (planned, see DESIGN.md §6)" for i in range(1, 21) if f"C{i:02d}" not in CHECKS}
 NOT_APPLICABLE = {}
